@@ -4,6 +4,7 @@ package verifx
 
 import (
 	"fmt"
+	"regexp"
 	"strings"
 
 	"github.com/aml-org/amf-custom-validator/pkg/events"
@@ -30,8 +31,47 @@ func init() {
 	}, c17Gen, c17Run)
 }
 
+// c17BigLex: a document with more than 32 source maps (size thresholds in the lexical indexing); the source-map
+// and lexical-entry nodes come first in @graph so that mutations can be restricted to them.
+func c17BigLex() (string, int) {
+	g := &Graph{}
+	const n = 36
+	for i := 0; i < n; i++ {
+		id := fmt.Sprintf("%st%d", EX, i)
+		sm := g.Add(id+"/source-map", smNS+"SourceMap")
+		e := g.Add(id + "/source-map/lexical/element_0")
+		e.P(smNS+"element", id).P(smNS+"value", fmt.Sprintf("[(%d,1)-(%d,9)]", i+1, i+2))
+		sm.P(smNS+"lexical", Ref(e.ID))
+	}
+	for i := 0; i < n; i++ {
+		node := g.Add(fmt.Sprintf("%st%d", EX, i), EX+"T").P(smNS+"sources", Ref(fmt.Sprintf("%st%d/source-map", EX, i)))
+		if i%3 == 0 {
+			node.P(EX+"p1", "v")
+		}
+	}
+	g.Add(EX+"BaseUnitSourceInformation", docNS+"BaseUnitSourceInformation").P(docNS+"rootLocation", "file:///root.raml")
+	return g.FlatJSONLD(), 2 * n
+}
+
+var c17GraphIdx = regexp.MustCompile(`/@graph\[(\d+)\]`)
+
 func c17Gen(tier string, emit func(c17Case)) {
 	seeds := Seeds()
+	{
+		data, limit := c17BigLex()
+		for i, m := range JSONMutants(data) {
+			mm := c17GraphIdx.FindStringSubmatch(m.Desc)
+			if mm == nil {
+				continue
+			}
+			var idx int
+			fmt.Sscan(mm[1], &idx)
+			if idx >= limit || (tier != "thorough" && idx >= 8 && idx < limit-8) {
+				continue // quick: the first and last four source maps (first and last chunk of any chunked processing)
+			}
+			emit(c17Case{Kind: "data", Seed: "biglex", Profile: c14Profile(), Data: m.Text, Desc: "biglex: " + m.Desc, Full: i%8 == 0})
+		}
+	}
 	for _, s := range seeds {
 		for _, m := range YAMLMutants(s.Profile) {
 			emit(c17Case{Kind: "profile", Seed: s.Name, Profile: m.Text, Data: s.Data, Desc: m.Desc})
@@ -124,6 +164,10 @@ func c17SeedQuery(s Seed) *rego.PreparedEvalQuery {
 }
 
 func seedByName(n string) Seed {
+	if n == "biglex" {
+		d, _ := c17BigLex()
+		return Seed{"biglex", c14Profile(), d}
+	}
 	for _, s := range Seeds() {
 		if s.Name == n {
 			return s
